@@ -125,6 +125,12 @@ theorem irred_equals_full_aux (hA : ListAction mul L act) (hL : L ≠ []) (T : G
   | nil => simp
   | cons a t ih => simp only [List.map_cons, List.sum_cons, smul_add, ih]
 
+end Sums
+
+section Tab
+variable {G X V : Type} [DecidableEq X]
+variable {mul : G → G → G} {L : List G} {act : G → X → X}
+
 /-- T3 (tabulation): the symmetrised, stacked table `[(g·r, T g (f r)) | r ∈ irr, g ∈ L]` carries at every entry
     the value of `f` at that entry's k-point, and reaches every grid point. -/
 theorem tab_entries_aux (_hA : ListAction mul L act) (T : G → V → V) (f : X → V)
@@ -145,6 +151,6 @@ theorem tab_entries_aux (_hA : ListAction mul L act) (T : G → V → V) (f : X 
     obtain ⟨g, hg, rfl⟩ := List.mem_map.1 hkr
     exact ⟨(act g r, T g (f r)), List.mem_flatMap.2 ⟨r, hr, List.mem_map.2 ⟨g, hg, rfl⟩⟩, rfl⟩
 
-end Sums
+end Tab
 
 end WB.C07
